@@ -77,7 +77,8 @@ def main():
 
     def m_resolve(e, m, a):
         h = deref(e, a[0])
-        which = h[1]
+        # sub-expressions are real expression values of the shapes the macros produce; their id field carries the handle
+        which = h[0][1] if (isinstance(h, list) and isinstance(h[0], tuple) and h[0][0] == "opid") else h[1]
         cn = ctx_name(e, a[1])
         cur["events"].append(("resolve", which, cn))
         k = sum(1 for x in cur["events"] if x[0] == "resolve" and x[1] == which) - 1
@@ -159,6 +160,13 @@ def main():
         e.violations.append({"kind": "panic", "message": "panic_fmt reached (todo!/unreachable!/expect)", "function": fn.name, "model": None})
         raise PanicFound("panic_fmt", None)
 
+    def m_string_eq_any(e, m, a):
+        x, y = deref(e, a[0]), deref(e, a[1])
+        x, y = deref(e, x), deref(e, y)
+        tx = x[1].decode() if isinstance(x[1], bytes) else x[1]
+        ty = y[1].decode() if isinstance(y[1], bytes) else y[1]
+        return tx == ty
+
     extern = [
         (r"^(?:core::panicking::)?panic_fmt$", m_panic),
         (r"^<std::option::Option<&Value> as PartialEq>::(eq|ne)$", m_opt_value_eq),
@@ -175,12 +183,35 @@ def main():
         (r"^<std::slice::Iter<'_, Value> as Iterator>::next$", m_iter_next),
         (r"^<Value as Clone>::clone$", m_value_clone),
         (r"^std::result::Result::<\(\), Infallible>::expect$", m_expect),
+        (r"^Vec::<Value>::is_empty$", lambda e, m, a: len((lambda v: v[1] if isinstance(v, tuple) else v)(deref(e, a[0]))) == 0),
+        (r"^Vec::<Value>::len$", lambda e, m, a: len((lambda v: v[1] if isinstance(v, tuple) else v)(deref(e, a[0])))),
+        (r"^<std::string::String as PartialEq<&?str>>::(?:eq|ne)$", lambda e, m, a: m_string_eq_any(e, m, a) if m.group(0).endswith("eq") else not m_string_eq_any(e, m, a)),
+        (r"^<std::string::String as PartialEq>::eq$", m_string_eq_any),
+        (r"^<str as PartialEq>::eq$", m_string_eq_any),
     ] + STD_MODELS
 
     conds = [z3.Bool("cond%d" % k) for k in range(DEPTH + 1)]
 
+    S = lambda t: ("string", t)
+    ident = lambda n: ("enum", "Expr::Ident", [S(n)])
+    shape_now = {"cond": "nsf"}
+
+    def shape_of(h):
+        acc = [("opid", "inner_" + h), ident("@result")]
+        if h == "range":
+            return ident("xs")
+        if h == "init":
+            return ("enum", "Expr::Literal", [("enum", "Val::Boolean", [True])])
+        if h == "cond":
+            if shape_now["cond"] == "nsf":
+                return ("enum", "Expr::Call", [[S("@not_strictly_false"), ("None",), ("vec", [acc])]])
+            return ("enum", "Expr::Literal", [("enum", "Val::Boolean", [True])])
+        if h == "step":
+            return ("enum", "Expr::Call", [[S("_&&_"), ("None",), ("vec", [acc, [("opid", "inner_p"), ident("p")]])]])
+        return ident("@result")
+
     def box(h):
-        hold = {0: ("operand", h)}
+        hold = {0: [("opid", h), shape_of(h)]}
         return [[Ref(hold, 0, ())]]
 
     def scenario(n, errs, range_kind="list"):
@@ -190,7 +221,17 @@ def main():
         eng.discriminants = dict(EXPR_DISC)
         eng.discriminants.update({"Value::" + nme: k for k, nme in enumerate(value_names)})
         eng.discriminants.update({"ControlFlow::Continue": 0, "ControlFlow::Break": 1, "Result::Ok": 0, "Result::Err": 1})
-        eng.ext_const = lambda name: [] if name.startswith("std::result::Result::<(), Infallible>::Ok") else None
+        ops_src = open(os.path.join(repo, "antlr/src/ast/operators.rs")).read()
+        op_consts = dict(re.findall(r"pub const (\w+): &str = \"([^\"]*)\";", ops_src))
+
+        def ext_const(name):
+            if name.startswith("std::result::Result::<(), Infallible>::Ok"):
+                return []
+            short = name.split("::")[-1]
+            if "operators::" in name and short in op_consts:
+                return ("str", op_consts[short].encode())
+            return None
+        eng.ext_const = ext_const
         items = [("abs_val", "item%d" % k) for k in range(n)]
         ok = lambda v: ("enum", "Result::Ok", [v])
         err = lambda w: ("enum", "Result::Err", [("abs_err", w)])
@@ -206,7 +247,7 @@ def main():
         comp = [box("range"), ("string", "x"), ("None",), ("string", "@result"), box("init"), box("cond"), box("step"), box("result")]
         expr = [3, ("enum", "Expr::Comprehension", [comp])]
         pseudo = {0: expr}
-        desc = {"elements": n, "failing": list(errs) if errs else None, "range_kind": range_kind}
+        desc = {"elements": n, "failing": list(errs) if errs else None, "range_kind": range_kind, "loop_condition_shape": shape_now["cond"]}
 
         def entry(e):
             cur.clear()
@@ -279,16 +320,19 @@ def main():
         stats["functions"] |= eng.stats["functions"]
 
     try:
-        for n in range(0, DEPTH + 1):
-            cases = [None, ("range",), ("init",), ("result",)] + [("cond", k) for k in range(n)] + [("step", k) for k in range(n)]
-            for c in cases:
-                scenario(n, c)
+        for cond_shape in ("nsf", "true"):
+            # loop conditions as the macros build them: @not_strictly_false(@result) for all / exists, the literal true for the others
+            shape_now["cond"] = cond_shape
+            for n in range(0, DEPTH + 1):
+                cases = [None, ("range",), ("init",), ("result",)] + [("cond", k) for k in range(n)] + [("step", k) for k in range(n)]
+                for c in cases:
+                    scenario(n, c)
         for rk in ("int", "null", "bool", "string"):
             scenario(0, None, rk)
     except Unsupported as u:
         status = 2
         print("INCONCLUSIVE: unsupported: %s" % u)
-    if failures and status == 0:
+    if failures:  # a counterexample stands even if a later scenario met an unmodelled call (it is replayed natively anyway)
         status = 1
     out = {"functions_encoded": sorted(stats["functions"]), "scenarios": stats["scenarios"], "paths": stats["paths"], "paths_proved": stats["proved"],
            "queries": stats["queries"], "assert_obligations": stats["assert_obligations"], "solver_s": round(stats["solver_s"], 2),
